@@ -605,20 +605,41 @@ def r20_range_enumerate(text, base_line=0):
 
 def r22_map_collect(text, base_line=0):
     """R22: `let V: Vec<T> = E.iter().map(|x| F).collect();` -> `let mut V: Vec<T> = Vec::new(); for __k in 0..E.len() { let x = &E[__k]; V.push(F); }`
-    (what `iter().map().collect()` into a Vec does: push F(x) for each element in order)"""
+    (what `iter().map().collect()` into a Vec does: push F(x) for each element in order; `|&x|` binds by value, `|ref x|` by `ref`)"""
     log = []
-    pat = re.compile(r"let\s+(\w+)\s*:\s*(Vec<[^=;]+>)\s*=\s*((?:self\s*\.\s*)?\w+)\s*\.iter\(\)\s*\.map\(\|((?:ref\s+|&)?\w+)\|\s*([^;|]+?)\)\s*\.collect\(\);")
+    pat = re.compile(r"let\s+(\w+)\s*:\s*(Vec<[^=;]+>)\s*=\s*((?:self\s*\.\s*)?\w+)\s*\.iter\(\)\s*\.map\(\|((?:ref\s+|&)?\w+)\|\s*")
+    pos = 0
+    n = 0
     while True:
-        m = pat.search(text)
+        m = pat.search(text, pos)
         if not m:
             return text, log
-        v, ty, e, x, f = m.groups()
+        v, ty, e, x = m.groups()
+        # F runs to the `)` that closes `.map(`
+        k, depth = m.end(), 0
+        while k < len(text):
+            ch = text[k]
+            if ch in "([{":
+                depth += 1
+            elif ch in ")]}":
+                if depth == 0:
+                    break
+                depth -= 1
+            k += 1
+        tail = re.match(r"\)\s*\.collect\(\);", text[k:])
+        if not tail:
+            pos = m.end()
+            continue
+        f = text[m.end():k]
         e = "".join(e.split())
-        bind = ("let %s = %s[__k];" % (x[1:], e)) if x.startswith("&") else ("let %s = &%s[__k];" % (x, e))
-        new = "let mut %s: %s = Vec::new(); for __k in 0..%s.len() { %s %s.push(%s); }" % (v, ty.strip(), e, bind, v, " ".join(f.split()))
-        new += "\n" * m.group(0).count("\n")
-        log.append("R22 line %d: `%s` -> `%s`" % (base_line + text.count("\n", 0, m.start()), " ".join(m.group(0).split()), new.strip()))
-        text = text[:m.start()] + new + text[m.end():]
+        n += 1
+        idx = "__k"
+        bind = ("let %s = %s[%s];" % (x[1:], e, idx)) if x.startswith("&") else ("let %s = &%s[%s];" % (x, e, idx))
+        new = "let mut %s: %s = Vec::new(); for %s in 0..%s.len() { %s %s.push(%s); }" % (v, ty.strip(), idx, e, bind, v, f.strip())
+        new += "\n" * (text[m.start():k + tail.end()].count("\n") - new.count("\n"))
+        log.append("R22 line %d: `let %s: %s = %s.iter().map(|%s| ..).collect();` -> index loop pushing the closure value" % (base_line + text.count("\n", 0, m.start()), v, ty.strip(), e, x))
+        text = text[:m.start()] + new + text[k + tail.end():]
+        pos = m.start() + 10
 
 
 def r23_slice_iter(text, base_line=0):
@@ -750,28 +771,37 @@ def r30_rev_take_collect(text, base_line=0):
 
 
 def r31_zip_map_sum(text, base_line=0):
-    """R31: `X.iter().zip(Y.iter()).map(|(A, B)| { BODY }).sum::<f32>()` -> `{ let mut __m: Vec<f32> = Vec::new(); for __q in 0..min(X.len(), Y.len())
-    { let (A, B) = (&X[__q], &Y[__q]); __m.push({ BODY }); } f32_sum(&__m) }`"""
+    """R31: `X.iter().zip(Y.iter()).map(|(A, B)| BODY).sum[::<f32>]()` -> `({ let mut __m: Vec<f32> = Vec::new(); for __q in 0..min(X.len(), Y.len())
+    { let (A, B) = (&X[__q], &Y[__q]); __m.push(BODY); } f32_sum(&__m) })`"""
     log = []
-    pat = re.compile(r"(\w+)\s*\.iter\(\)\s*\.zip\((\w+)\.iter\(\)\)\s*\.map\(\s*\|\((\w+),\s*(\w+)\)\|\s*\{")
+    pat = re.compile(r"(\w+)\s*\.iter\(\)\s*\.zip\((\w+)\.iter\(\)\)\s*\.map\(\s*\|\((\w+),\s*(\w+)\)\|\s*")
     pos = 0
     while True:
         m = pat.search(text, pos)
         if not m:
             return text, log
         x, y, a, b = m.groups()
-        bo = m.end() - 1
-        bc = _balanced(text, bo)
-        tail = re.match(r"\s*,?\s*\)\s*\.sum::<f32>\(\)", text[bc:])
+        k, depth = m.end(), 0
+        while k < len(text):
+            ch = text[k]
+            if ch in "([{":
+                depth += 1
+            elif ch in ")]}":
+                if depth == 0:
+                    break
+                depth -= 1
+            k += 1
+        tail = re.match(r"\)\s*\.sum(?:::<f32>)?\(\)", text[k:])
         if not tail:
             pos = m.end()
             continue
-        nl = text[m.start():bo].count("\n")
+        body = text[m.end():k].rstrip().rstrip(",").rstrip()
         new = ("({ let mut __m: Vec<f32> = Vec::new(); for __q in 0..(if %s.len() < %s.len() { %s.len() } else { %s.len() }) { let (%s, %s) = (&%s[__q], &%s[__q]); __m.push("
-               % (x, y, x, y, a, b, x, y)) + "\n" * nl + text[bo:bc] + "); } f32_sum(&__m) })" + "\n" * tail.group(0).count("\n")
-        log.append("R31 line %d: `%s.iter().zip(%s.iter()).map(|(%s, %s)| {..}).sum::<f32>()` -> index loop collecting the closure values, then the opaque in-order sum"
+               % (x, y, x, y, a, b, x, y)) + body + "); } f32_sum(&__m) })"
+        new += "\n" * max(0, text[m.start():k + tail.end()].count("\n") - new.count("\n"))
+        log.append("R31 line %d: `%s.iter().zip(%s.iter()).map(|(%s, %s)| ..).sum()` -> index loop collecting the closure values, then the opaque in-order sum"
                    % (base_line + text.count("\n", 0, m.start()), x, y, a, b))
-        text = text[:m.start()] + new + text[bc + tail.end():]
+        text = text[:m.start()] + new + text[k + tail.end():]
         pos = m.start() + 10
 
 
@@ -1126,6 +1156,38 @@ def r49_chunks_exact_view(text, base_line=0):
         text = text[:m.start()] + new + text[m.end():]
 
 
+def r50_inner_map_collect(text, base_line=0):
+    """R50: expression `E.iter().map(|x| F).collect()` producing a Vec<f32> (not in a `let`) -> `{ let mut __c: Vec<f32> = Vec::new(); for __j in 0..E.len() { let x = &E[__j]; __c.push(F); } __c }`"""
+    log = []
+    pat = re.compile(r"(?<![\w\)])(\w+)\.iter\(\)\.map\(\|(\w+)\|\s*")
+    pos = 0
+    while True:
+        m = pat.search(text, pos)
+        if not m:
+            return text, log
+        e, x = m.groups()
+        k, depth = m.end(), 0
+        while k < len(text):
+            ch = text[k]
+            if ch in "([{":
+                depth += 1
+            elif ch in ")]}":
+                if depth == 0:
+                    break
+                depth -= 1
+            k += 1
+        tail = re.match(r"\)\.collect\(\)(?!;)", text[k:])
+        pre = text[max(0, m.start() - 40):m.start()]
+        if not tail or re.search(r"=\s*$", pre):
+            pos = m.end()
+            continue
+        f = text[m.end():k].strip()
+        new = "{ let mut __c: Vec<f32> = Vec::new(); for __j in 0..%s.len() { let %s = &%s[__j]; __c.push(%s); } __c }" % (e, x, e, f)
+        log.append("R50 line %d: `%s.iter().map(|%s| %s).collect()` -> index loop pushing the closure value" % (base_line + text.count("\n", 0, m.start()), e, x, f))
+        text = text[:m.start()] + new + text[k + tail.end():]
+        pos = m.start() + 10
+
+
 def r21_to_owned(text, base_line=0):
     """R21: `.to_owned()` -> `.clone()` (identical for a `Clone` type; vstd specifies `Clone`)"""
     log = []
@@ -1143,9 +1205,9 @@ REWRITES = {
     "R1": r1_compound_assign, "R2": r2_unary_minus, "R3": r3_scale_call, "R6": r6_for_with_continue,
     "R7": r7_isqrt, "R8": r8_step_by, "R9": r9_consts, "R10": r10_tail_continue,
     "R12": r12_enumerate, "R15": r15_iter, "R16": r16_map_index, "R17": r17_for_in_ref_vec, "R18": r18_assert_eq_shape,
-    "R19": r19_last_unwrap, "R20": r20_range_enumerate, "R21": r21_to_owned, "R22": r22_map_collect, "R23": r23_slice_iter, "R24": r24_name_wildcard_loop, "R25": r25_par_map_collect, "R26": r26_zip_iter_mut, "R27": r27_sum_f32, "R28": r28_as_f32, "R29": r29_consuming_for, "R30": r30_rev_take_collect, "R31": r31_zip_map_sum, "R32": r32_chunked_zip_flat_map, "R33": r33_unzip, "R34": r34_chunked_flat_map, "R35": r35_chunk_const, "R36": r36_extend, "R37": r37_for_in_ref, "R38": r38_flat_map3, "R39": r39_unflatten, "R42": r42_assert_eq, "R43": r43_mut_self, "R44": r44_name_tail_call, "R45": r45_min_method, "R47": r47_zip_mut_enumerate, "R48": r48_fold_max, "R49": r49_chunks_exact_view, "R46": r46_f32_as_usize, "R40": r40_for_mut_ref, "R41": r41_iter_mut_for_each, "R13": r13_panic_allowed, "R14": r14_panic_forbidden,
+    "R19": r19_last_unwrap, "R20": r20_range_enumerate, "R21": r21_to_owned, "R22": r22_map_collect, "R23": r23_slice_iter, "R24": r24_name_wildcard_loop, "R25": r25_par_map_collect, "R26": r26_zip_iter_mut, "R27": r27_sum_f32, "R28": r28_as_f32, "R29": r29_consuming_for, "R30": r30_rev_take_collect, "R31": r31_zip_map_sum, "R32": r32_chunked_zip_flat_map, "R33": r33_unzip, "R34": r34_chunked_flat_map, "R35": r35_chunk_const, "R36": r36_extend, "R37": r37_for_in_ref, "R38": r38_flat_map3, "R39": r39_unflatten, "R42": r42_assert_eq, "R43": r43_mut_self, "R44": r44_name_tail_call, "R45": r45_min_method, "R47": r47_zip_mut_enumerate, "R48": r48_fold_max, "R49": r49_chunks_exact_view, "R50": r50_inner_map_collect, "R46": r46_f32_as_usize, "R40": r40_for_mut_ref, "R41": r41_iter_mut_for_each, "R13": r13_panic_allowed, "R14": r14_panic_forbidden,
 }
-ORDER = ["R42", "R43", "R44", "R28", "R46", "R45", "R47", "R48", "R49", "R18", "R13", "R14", "R16", "R40", "R41", "R38", "R39", "R36", "R37", "R31", "R32", "R34", "R35", "R33", "R25", "R26", "R29", "R30", "R27", "R20", "R22", "R23", "R24", "R12", "R15", "R17", "R19", "R21", "R10", "R8", "R6", "R9", "R7", "R3", "R1", "R2"]
+ORDER = ["R42", "R43", "R44", "R28", "R46", "R45", "R47", "R48", "R49", "R18", "R13", "R14", "R16", "R50", "R40", "R41", "R38", "R39", "R36", "R37", "R31", "R32", "R34", "R35", "R33", "R25", "R26", "R29", "R30", "R27", "R20", "R22", "R23", "R24", "R12", "R15", "R17", "R19", "R21", "R10", "R8", "R6", "R9", "R7", "R3", "R1", "R2"]
 
 
 def apply_rewrites(text, names, base_line):
